@@ -291,12 +291,14 @@ Proof.
         | (st2, Some j) => (s, add_frame (FProg l) j st2, Raised j)
         | (st2, None) => (s, st2, Normal)
         end = (s', st', out)).
-    { destruct a as [|c m| |i].
+    { destruct a as [|c m| |i|c m].
       - exists st, (hd_error (hstack st)). split; [apply stable_refl|exact H].
       - exists (fst (alloc (mkobj c [] (OSite m) None) st)), (Some (next st)).
         split; [apply alloc_stable|exact H].
       - exists st, None. split; [apply stable_refl|exact H].
-      - exists st, (Some i). split; [apply stable_refl|exact H]. }
+      - exists st, (Some i). split; [apply stable_refl|exact H].
+      - exists (fst (alloc (mkobj c [FPre] (OSite m) None) st)), (Some (next st)).
+        split; [apply alloc_stable|exact H]. }
     destruct A as [st1 [x [S1 A]]]. rewrite filt_call_equiv in A.
     destruct (filt_call_hand p x st1) as [st2 r] eqn:F. apply filt_call_hand_stable in F.
     destruct r; inversion A; subst.
@@ -333,7 +335,7 @@ Proof.
   - destruct (exec b _ _) as [[s1 st1] o1]. inversion H; subst. auto.
   - destruct (exec b s st) as [[s1 st1] o1] eqn:B. apply (IHb _ _ _ _ _ D) in B.
     destruct (with_exit _ _ _ _ _ _ _) as [[s2 st2] o2]. inversion H; subst. assumption.
-  - destruct (match a with ACur => _ | ANew c m => _ | ANone => _ | AObj i => _ end) as [st1 x].
+  - destruct (match a with ACur => _ | ANew c m => _ | ANone => _ | AObj i => _ | AStored c m => _ end) as [st1 x].
     destruct (do_filt_call p x s st1) as [st2 [j|]]; inversion H; subst; auto.
   - destruct (hstack st) as [|i rest]; inversion H; subst; auto.
 Qed.
@@ -972,12 +974,14 @@ Proof.
         | (st2, Some j) => (s, add_frame (FProg l) j st2, Raised j)
         | (st2, None) => (s, st2, Normal)
         end = (s', st', out)).
-    { destruct a as [|c m| |i].
+    { destruct a as [|c m| |i|c m].
       - exists st, (hd_error (hstack st)). split; [lia|]. split; [exact K1|exact H].
       - exists (fst (alloc (mkobj c [] (OSite m) None) st)), (Some (next st)).
         split; [cbn; lia|]. split; [apply alloc_suffix; assumption|exact H].
       - exists st, None. split; [lia|]. split; [exact K1|exact H].
-      - exists st, (Some i). split; [lia|]. split; [exact K1|exact H]. }
+      - exists st, (Some i). split; [lia|]. split; [exact K1|exact H].
+      - exists (fst (alloc (mkobj c [FPre] (OSite m) None) st)), (Some (next st)).
+        split; [cbn; lia|]. split; [apply alloc_suffix; assumption|exact H]. }
     destruct A as [st1 [x [N1 [S1 A]]]]. rewrite filt_call_equiv in A. unfold filt_call_hand in A.
     assert (Ho1 : o < next st1) by lia.
     destruct (pv p _).
@@ -1116,3 +1120,28 @@ Qed.
 Lemma filter_get_instances_lemma : forall (O : Type) (upred : O -> predspec) (o1 o2 : O),
   filt_get upred o1 = upred o1 /\ filt_get upred o2 = upred o2.
 Proof. intros. split; reflexivity. Qed.
+
+(* a stored exception (raised and caught elsewhere, so it carries traceback [FPre]) handed to the filter while it is NOT
+   the exception being handled — no active exception, or inside an unrelated except block: rejected -> that same
+   object, its own traceback kept and extended by the two frames of the call (never the active exception's) *)
+Lemma filter_call_stored_lemma : forall p l s st c m,
+  pv p (Some c) = PFalsy ->
+  exists st', exec (FilterCall p (AStored c m) l) s st = (s, st', Raised (next st)) /\ stable st st' /\
+              ecls (heap st' (next st)) = c /\ eorg (heap st' (next st)) = OSite m /\
+              tb_of st' (next st) = [FProg l; FHelper FnFiltCall KVal; FPre].
+Proof.
+  intros p l s st c m V. cbn [exec]. cbn [alloc]. rewrite filt_call_equiv. unfold filt_call_hand. cbn [option_map].
+  assert (C : cls_of (fst (alloc (mkobj c [FPre] (OSite m) None) st)) (next st) = c)
+    by (unfold cls_of, alloc; cbn; rewrite upd_same; reflexivity).
+  cbn [alloc fst] in C. rewrite C, V.
+  destruct (opt_nat_eqb _ _) eqn:Q.
+  - destruct (hd_error _) as [i|] eqn:Hd; cbn in Q; [|discriminate]. apply Nat.eqb_eq in Q. subst i.
+    eexists. split; [reflexivity|]. split.
+    + eapply stable_trans; [apply (alloc_stable (mkobj c [FPre] (OSite m) None))|].
+      eapply stable_trans; [apply raise_value_stable|apply add_frame_stable].
+    + unfold raise_value. rewrite tb_eqb_refl. heap_tac.
+  - eexists. split; [reflexivity|]. split.
+    + eapply stable_trans; [apply (alloc_stable (mkobj c [FPre] (OSite m) None))|].
+      eapply stable_trans; apply add_frame_stable.
+    + heap_tac.
+Qed.
